@@ -14,6 +14,10 @@ def x_jobs():
         j.append(X("c04_" + e, {"n": 3, "t": 5, "mode": "fp"}, "%s length 3 with unsafe_performance (Window's get_unchecked branches): definitional on every order pattern, no out-of-bounds access" % e, features=("up",), cost=15, encodes=ENC))
     for m in ("sma", "wma", "swma", "linreg", "integral", "stdev"):
         j.append(X("c02_" + m, {"n": 3, "t": 6}, "%s length 3 with unsafe_performance: identity with the definition and no out-of-bounds unchecked access (the same obligation holds for the default build under C02: both builds agree)" % m, features=("up",), cost=5, encodes=ENC))
+    import c01_extra
+    for x in c01_extra.jobs():
+        if x.args["n"] in (3, 8, 200, 254):
+            j.append(X(x.harness, x.args, x.bounds + " — with unsafe_performance: identical results and no out-of-bounds unchecked access", features=("up",), cost=x.cost, encodes=ENC))
     return j
 
 
